@@ -164,7 +164,16 @@ func (m *vMonC02) AfterTx(h *vHist, o *vTxObs) {
 
 		// (4) overdraft split
 		if overdraftNow && singleMsg {
-			B := pa.Balance.Amount
+			// A deposit may credit before or after the settlement it triggers
+			// (the statement names deposits among the settle-triggering actions
+			// without fixing that order): both readings of "the remaining
+			// balance" are tried.
+			Bs := []sdk.Int{pa.Balance.Amount}
+			if dm, ok := o.Msgs[0].(*dtypes.MsgDepositDeployment); ok && o.OK && vDepAcctKey(dm.ID) == ak {
+				Bs = append(Bs, pa.Balance.Amount.Add(dm.Amount.Amount))
+				m.res.Count("overdrafts_found_by_a_deposit", 1)
+			}
+			B := Bs[0]
 			R := sdk.ZeroInt()
 			var open []string
 			for _, pk := range vSortedKeys(pre.Pays) {
@@ -176,31 +185,48 @@ func (m *vMonC02) AfterTx(h *vHist, o *vTxObs) {
 			}
 			dh := o.Height - pa.SettledAt
 			if R.IsPositive() {
-				f := B.Quo(R)
-				if f.GTE(sdk.NewInt(dh)) {
-					h.Violation("overdrawn-only-when-funds-run-out", kind,
-						fmt.Sprintf("account %s went overdrawn with balance %s, block rate %s and %d blocks elapsed (funds cover %s blocks)", ak, B, R, dh, f))
-				}
-				total := sdk.ZeroInt()
 				rates := map[string]bool{}
-				for _, pk := range open {
-					pp, np := pre.Pays[pk], post.Pays[pk]
-					d := vCredited(np).Sub(vCredited(pp))
-					total = total.Add(d)
-					extra := d.Sub(pp.Rate.Amount.Mul(f))
-					if extra.IsNegative() || extra.GT(pp.Rate.Amount) {
-						h.Violation("overdraft-split-bounds", kind,
-							fmt.Sprintf("overdraft of %s: balance %s, block rate %s, %s full blocks; payment %s (rate %s) received %s = full-block entitlement %s %+d, admissible extra [0,%s]",
-								ak, B, R, f, pk, pp.Rate.Amount, d, pp.Rate.Amount.Mul(f), extra.Int64(), pp.Rate.Amount))
+				judge := func(B sdk.Int) [][2]string {
+					var vv [][2]string
+					f := B.Quo(R)
+					if f.GTE(sdk.NewInt(dh)) {
+						vv = append(vv, [2]string{"overdrawn-only-when-funds-run-out",
+							fmt.Sprintf("account %s went overdrawn with balance %s, block rate %s and %d blocks elapsed (funds cover %s blocks)", ak, B, R, dh, f)})
 					}
-					if np.State != etypes.PaymentOverdrawn {
-						h.Violation("overdraft-marks-payments", kind, fmt.Sprintf("account %s overdrawn but payment %s is %s", ak, pk, vPayState(np.State)))
+					total := sdk.ZeroInt()
+					for _, pk := range open {
+						pp, np := pre.Pays[pk], post.Pays[pk]
+						d := vCredited(np).Sub(vCredited(pp))
+						total = total.Add(d)
+						extra := d.Sub(pp.Rate.Amount.Mul(f))
+						if extra.IsNegative() || extra.GT(pp.Rate.Amount) {
+							vv = append(vv, [2]string{"overdraft-split-bounds",
+								fmt.Sprintf("overdraft of %s: balance %s, block rate %s, %s full blocks; payment %s (rate %s) received %s = full-block entitlement %s %+d, admissible extra [0,%s]",
+									ak, B, R, f, pk, pp.Rate.Amount, d, pp.Rate.Amount.Mul(f), extra.Int64(), pp.Rate.Amount)})
+						}
+						if np.State != etypes.PaymentOverdrawn {
+							vv = append(vv, [2]string{"overdraft-marks-payments", fmt.Sprintf("account %s overdrawn but payment %s is %s", ak, pk, vPayState(np.State))})
+						}
+						rates[pp.Rate.Amount.String()] = true
 					}
-					rates[pp.Rate.Amount.String()] = true
+					if !total.Equal(B) {
+						vv = append(vv, [2]string{"overdraft-distributes-whole-balance", fmt.Sprintf("overdraft of %s: balance %s, distributed %s", ak, B, total)})
+					}
+					return vv
 				}
-				if !total.Equal(B) {
-					h.Violation("overdraft-distributes-whole-balance", kind, fmt.Sprintf("overdraft of %s: balance %s, distributed %s", ak, B, total))
+				vv := judge(Bs[0])
+				for _, b2 := range Bs[1:] {
+					if len(vv) == 0 {
+						break
+					}
+					if v2 := judge(b2); len(v2) == 0 {
+						vv, B = nil, b2
+					}
 				}
+				for _, v := range vv {
+					h.Violation(v[0], kind, v[1])
+				}
+				f := B.Quo(R)
 				if !a.Balance.IsZero() {
 					h.Violation("overdraft-leaves-zero", kind, fmt.Sprintf("overdrawn account %s keeps %s", ak, a.Balance))
 				}
